@@ -305,7 +305,9 @@ let lp_main guard path tablepath needpath =
             let k = kv_of rest in
             let mtu = int_of_string (kv "mtu" k) in
             let o = { o_frag = (kv "frag" k = "1"); o_ifi = (kv "ifi" k = "1") } in
-            let seq = n_of_dec (kv "seq" k) and tok = unhex (kv "tok" k) and inface = opt_n (kv "inface" k) and mark = opt_n (kv "mark" k) in
+            let seq = n_of_dec (kv "seq" k) and tok = unhex (kv "tok" k) and inface = opt_n (kv "inface" k) in
+            (* the marking decision is an input of the model: own=1 = the link service decided to mark this packet itself *)
+            let mark = effective_mark (kv "own" k = "1") (opt_n (kv "mark" k)) in
             let wire = if op = "SEND" then unhex (kv "wire" k) else pattern_wire (int_of_string (kv "n" k)) in
             let zmtu = z_of_int mtu in
             (* hist = option settings of the link service: constructed with the first, SetOptions for each further one
